@@ -25,7 +25,10 @@ let parse_caller_args (t : string) : caller * string list =
   let rest = if pos < len && t.[pos] = ':' then String.sub t (pos + 1) (len - pos - 1) else "" in
   (c, if rest = "" then [] else split_on ':' rest)
 
-let parse_op (t : string) : op =
+let rec parse_op (t : string) : op =
+  match String.index_opt t '~' with
+  | Some i -> parse_op (String.sub t 0 i)
+  | None ->
   match t.[0] with
   | 'E' -> OExpire
   | 'J' -> OFlush
@@ -64,11 +67,19 @@ let parse_op (t : string) : op =
      | 'D' -> OSub (c, a 0)
      | _ -> failwith ("bad op " ^ t))
 
+(* <op>~<j>: how many key-value operations of the operation reach the store before the power is lost *)
+let cut_of (t : string) : int option =
+  match String.index_opt t '~' with
+  | Some i -> (try Some (int_of_string (String.sub t (i + 1) (String.length t - i - 1))) with _ -> Some 0)
+  | None -> None
+
+let rec nat_of_int (i : int) : nat = if i <= 0 then O else S (nat_of_int (i - 1))
+
 let opt_str = function None -> "-" | Some x -> s_of_n x
 
 let sort_by_key l = List.sort (fun (a, _) (b, _) -> compare (int_of_n a) (int_of_n b)) l
 
-let cells_str (r : ram) : string =
+let cells_str (r : ram) (m : (n * cblob) list) : string =
   let fabs = List.map (fun (i, f) ->
       Printf.sprintf "F%s=%s:%s:%s:%s:%s" (s_of_n i) (s_of_n f.f_nid) (s_of_n f.f_vid)
         (s_of_n f.f_label) (s_of_n f.f_acl) (s_of_n f.f_gkm)) (sort_by_key r.r_fabs) in
@@ -83,8 +94,13 @@ let cells_str (r : ram) : string =
   let tz = "Z=" ^ s_of_n r.r_tz in
   let tts = "T=" ^ (match r.r_tts with None -> "-" | Some (f, v) -> s_of_n f ^ "." ^ s_of_n v) in
   let subs = "S=" ^ join (List.map (fun (f, t) -> s_of_n f ^ "." ^ s_of_n t) r.r_subs) in
+  let stored = "K=" ^ (match List.find_opt (fun (k, _) -> k = ni 267) m with
+      | None -> "-"
+      | Some (_, BRes []) -> "0"
+      | Some (_, BRes l) -> join (List.map (fun (f, p) -> s_of_n f ^ "." ^ s_of_n p) l)
+      | Some _ -> "!") in
   String.concat " " (fabs @ [basic; res; nets; labels; binds; tz; tts;
-                             per_fabric "C" r.r_icd; per_fabric "P" r.r_ota; per_fabric "E" r.r_scenes; subs])
+                             per_fabric "C" r.r_icd; per_fabric "P" r.r_ota; per_fabric "E" r.r_scenes; subs; stored])
 
 let kvop_str = function
   | KStore (k, _) -> "s" ^ s_of_n k
@@ -111,7 +127,10 @@ let run_s (f : string list) : string =
   let log = ref [] in          (* whole key-value log, in order *)
   let skips = ref [] in        (* (first, last) cut positions inside a factory reset *)
   let recs = List.map (fun (tok, o) ->
-      let (st', evs) = c_step true !st o in
+      let cut = cut_of tok in
+      let (st', evs) = match cut with
+        | Some j -> c_step_cut true !st o (nat_of_int j)
+        | None -> c_step true !st o in
       let kvs = c_kvlog evs in
       let before = List.length !log in
       (* the event epoch and the group counter keys are property C12's: not counted (harness: foreign_key) *)
@@ -123,25 +142,25 @@ let run_s (f : string list) : string =
         | [] -> None
         | EKv _ :: t -> ackpos (i + 1) t
         | EAck s :: _ -> Some (s, i) in
-      let status, ack = match ackpos 0 evs with
+      let status, ack = match (if cut <> None then None else ackpos 0 evs) with
         | Some (Ok, i) -> "ok", (match o with OSub _ -> "*" | _ -> string_of_int i)
         | Some (Refused, _) -> "no", "-"
         | None -> "-", "-" in
       let kvstr = match o with
-        | OReset ->
+        | OReset when cut = None ->
           if fin > before + 1 then skips := (before + 1, fin - 1) :: !skips;
           Printf.sprintf "reset:%d:0:%s" (List.length kvs)
             (if st'.s_kv = [] then "-" else String.concat "+" (List.map (fun (k, _) -> s_of_n k) (sort_by_key st'.s_kv)))
         | _ -> if kvs = [] then "-" else String.concat "," (List.map kvop_str kvs) in
       st := st';
-      Printf.sprintf "%s|%s|%s|%s|%d|%s|%c" status kvstr ack (fs_str st'.s_fs) fin (cells_str st'.s_ram) tok.[0]) ops in
+      Printf.sprintf "%s|%s|%s|%s|%d|%s|%c" status kvstr ack (fs_str st'.s_fs) fin (cells_str st'.s_ram st'.s_kv) (if cut <> None then 'x' else tok.[0])) ops in
   let total = List.length !log in
   let cuts = ref [] in
   for k = 0 to total do
     if not (List.exists (fun (a, b) -> k >= a && k <= b) !skips) then begin
       let m = c_replay st0.s_kv (take k !log) in
       let s = match c_startup m with
-        | Some (r, _) -> Printf.sprintf "%d|ok|%s" k (cells_str r)
+        | Some (r, w) -> Printf.sprintf "%d|ok|%s" k (cells_str r (c_replay m w))
         | None -> Printf.sprintf "%d|err|" k in
       cuts := s :: !cuts
     end
@@ -179,11 +198,34 @@ let parse_cells (s : string) : (n * n) list =
           | 'F' -> int_of_string (String.sub name 1 (String.length name - 1))
           | 'I' -> 256 | 'W' -> 258 | 'U' -> 259 | 'D' -> 260 | 'R' -> 267
           | 'Z' -> 268 | 'T' -> 262 | 'C' -> 265 | 'P' -> 264 | 'E' -> 263 | 'S' -> 2048
+          | 'K' -> 9267
           | _ -> 9999 in
         let dflt = match name.[0] with
-          | 'I' -> v = "0/-/-" | 'W' -> v = "0:-" | 'U' | 'D' | 'R' | 'T' | 'C' | 'P' | 'E' | 'S' -> v = "-"
+          | 'I' -> v = "0/-/-" | 'W' -> v = "0:-" | 'U' | 'D' | 'R' | 'T' | 'C' | 'P' | 'E' | 'S' | 'K' -> v = "-"
           | 'Z' -> v = "0" | _ -> false in
         Some (ni key, if dflt then N0 else intern (name ^ "=" ^ v))) (split_on ' ' s)
+
+(* "2.71+1.70" -> [(2,71); (1,70)]; anything else (absent, empty, unreadable) -> [] *)
+let parse_pairs (v : string) : (n * n) list =
+  List.filter_map (fun x ->
+      match split_on '.' x with
+      | [a; b] -> (try Some (n a, n b) with _ -> None)
+      | _ -> None) (split_on '+' v)
+
+let cell_value (cells : string) (name : string) : string =
+  let pre = name ^ "=" in
+  let l = String.length pre in
+  match List.find_opt (fun c -> String.length c >= l && String.sub c 0 l = pre) (split_on ' ' cells) with
+  | Some c -> String.sub c l (String.length c - l)
+  | None -> "-"
+
+let fabs_of (cells : string) : n list =
+  List.filter_map (fun c ->
+      if String.length c > 1 && c.[0] = 'F' then
+        match String.index_opt c '=' with
+        | Some i -> (try Some (ni (int_of_string (String.sub c 1 (i - 1)))) with _ -> None)
+        | None -> None
+      else None) (split_on ' ' cells)
 
 let vname (c : n) : string =
   if c = v_NO_BOOT then "no-boot"
@@ -192,6 +234,9 @@ let vname (c : n) : string =
   else if c = v_PARTIAL then "partial-commit"
   else if c = v_LEFTOVER then "factory-reset-leftover"
   else if c = v_FLUSHED then "uncommitted-flushed"
+  else if c = v_STALE then "stale-cache-after-startup"
+  else if c = v_STALE_LIVE then "stale-cache-after-restart"
+  else if c = v_REBOUND then "record-rebound-to-new-fabric"
   else "unknown"
 
 let spec_s (f : string list) (line : string) : string =
@@ -224,13 +269,27 @@ let spec_s (f : string list) (line : string) : string =
           o_end = n fin;
           o_left = left;
           o_best_effort = (match rest with k :: _ -> k = "D" | [] -> false);
-          o_cells = parse_cells cells }
-      | _ -> { o_ok = false; o_nkv = N0; o_ack = None; o_fs = None; o_end = N0; o_left = None; o_best_effort = false; o_cells = [] })
+          o_cells = parse_cells cells;
+          o_restart = (match rest with k :: _ -> k = "Q" || k = "x" | [] -> false);
+          o_session = (match rest with
+              | _ :: x :: _ -> (match split_on '/' x with
+                  | [_; sess] -> (match parse_pairs sess with [p] -> Some p | _ -> None)
+                  | _ -> None)
+              | _ -> None);
+          o_fabs = fabs_of cells;
+          o_res = parse_pairs (cell_value cells "R");
+          o_kres = parse_pairs (cell_value cells "K");
+          o_inc = (match rest with
+              | _ :: x :: _ -> parse_pairs (List.hd (split_on '/' x))
+              | _ -> []) }
+      | _ -> { o_ok = false; o_nkv = N0; o_ack = None; o_fs = None; o_end = N0; o_left = None; o_best_effort = false; o_cells = [];
+               o_restart = false; o_session = None; o_fabs = []; o_res = []; o_kres = []; o_inc = [] })
       (List.filter (fun x -> x <> "") (split_on ';' ops_s)) in
   let cuts = List.map (fun r ->
       match String.split_on_char '|' r with
-      | k :: boot :: cells :: _ -> { c_n = n k; c_boot = (boot = "ok"); c_cells = parse_cells cells }
-      | _ -> { c_n = N0; c_boot = false; c_cells = [] })
+      | k :: boot :: cells :: _ -> { c_n = n k; c_boot = (boot = "ok"); c_cells = parse_cells cells;
+                                     c_fabs = fabs_of cells; c_kres = parse_pairs (cell_value cells "K") }
+      | _ -> { c_n = N0; c_boot = false; c_cells = []; c_fabs = []; c_kres = [] })
       (List.filter (fun x -> x <> "") (split_on ';' cuts_s)) in
   let v = monitor ops cuts in
   if v = [] then "ok"
@@ -260,8 +319,10 @@ let () =
        let f = String.split_on_char ' ' line in
        match f with
        | "S" :: id :: _ ->
-         if spec then Printf.printf "S %s %s\n" id (spec_s f line)
-         else Printf.printf "S %s %s\n" id (run_s f)
+         (* a token or record this driver does not know is a difference to report, not a crash *)
+         let guard g = try g () with e -> "unreadable:" ^ String.map (fun c -> if c = ' ' then '_' else c) (Printexc.to_string e) in
+         if spec then Printf.printf "S %s %s\n" id (guard (fun () -> spec_s f line))
+         else Printf.printf "S %s %s\n" id (guard (fun () -> run_s f))
        | "R" :: id :: kind :: rest ->
          if spec then
            (* the implementation's own verdict on its round trips *)
